@@ -96,6 +96,32 @@ pub fn programs(tier: Tier) -> Vec<Prog> {
     v.push(Prog { text: format!("x := [\"{}\" \"k\"]", t), family: format!("string-constant:matrix:{}", i), must_run: true });
     v.push(Prog { text: format!("a := \"{}\"\nb := \"{}\"\nc := a == b", t, t), family: format!("string-constant:compare:{}", i), must_run: true });
   }
+  // (5b) container constants of every small shape, with a multi-byte string at every position (class B: may fail, never differ)
+  {
+    let strs = ["a", "éa", "日本", "x😀"];
+    for r in 1..=3usize { for c in 1..=3usize {
+      // tables: c columns alternating f64 / string / u8 kinds, r rows
+      let kinds = ["f64", "string", "u8"];
+      let head: Vec<String> = (0..c).map(|j| format!("c{}<{}>", j, kinds[j % 3])).collect();
+      for variant in 0..2usize {
+        let rows: Vec<String> = (0..r).map(|i| (0..c).map(|j| match kinds[j % 3] { "f64" => format!("{}.5", i * 3 + j), "string" => format!("\"{}\"", strs[(i + j + variant * 2) % strs.len()]), _ => format!("{}", i * 3 + j + 1) }).collect::<Vec<_>>().join(" ")).collect();
+        v.push(Prog { text: format!("x := | {} | {} |", head.join(" "), rows.join(" | ")), family: format!("container-constant:table:{}x{}", r, c), must_run: false });
+      }
+      // string matrices with the multi-byte string at every position
+      for pos in 0..r * c {
+        let cells: Vec<String> = (0..r * c).map(|k| format!("\"{}\"", if k == pos { strs[1 + pos % 3] } else { "k" })).collect();
+        v.push(Prog { text: format!("x := {}", super::c01::matrix_literal(&cells, r, c)), family: format!("container-constant:string-matrix:{}x{}", r, c), must_run: false });
+      }
+    } }
+    for n in 1..=3usize { for pos in 0..n {
+      let items: Vec<String> = (0..n).map(|k| format!("\"{}\"", if k == pos { strs[1 + (pos + n) % 3].to_string() } else { format!("m{}", k) })).collect();
+      v.push(Prog { text: format!("x := {{{}}}", items.join(", ")), family: format!("container-constant:string-set:{}", n), must_run: false });
+      // (tuples are not enumerated here: compile() of any tuple constant never returns - known finding structure:tuple-literal - and every hang costs its full budget)
+      v.push(Prog { text: format!("x := {{{}}}", items.iter().enumerate().map(|(k, s)| format!("f{}: {}", k, s)).collect::<Vec<_>>().join(", ")), family: format!("container-constant:record:{}", n), must_run: false });
+      v.push(Prog { text: format!("x := {{{}}}", items.iter().enumerate().map(|(k, s)| format!("{}: {}", s, k)).collect::<Vec<_>>().join(", ")), family: format!("container-constant:map:{}", n), must_run: false });
+    } }
+    for n in 1..=4usize { v.push(Prog { text: format!("x := {{{}}}", (1..=n).map(|k| k.to_string()).collect::<Vec<_>>().join(", ")), family: format!("container-constant:number-set:{}", n), must_run: false }); }
+  }
   // (6) class B: may fail, must not lie
   for (nm, t) in [
     ("matrix-literal", "x := [1 2; 3 4]"), ("matrix-of-vars", "a := 1\nb := 2\nx := [a b; b a]"), ("matrix-4rows", "x := [1; 2; 3; 4]"), ("matrix-4rows-bare", "[1; 2; 3; 4]"), ("matrix-5rows", "x := [1; 2; 3; 4; 5]"), ("matrix-2x4", "x := [1 2 3 4; 5 6 7 8]"),
